@@ -44,7 +44,7 @@ def parseKey (kk : KeyKind) (b : Bytes) : Option Nat :=
       | some s =>
           if s.all (fun c => 97 ≤ c && c ≤ 122) then some (s.foldl (fun acc c => acc * 26 + (c.toNat - 97)) 0) else none
       | none => none
-  | .bytes | .sk | .skc => none
+  | .bytes | .sk | .skc | .strx => none
 
 /-- strictly ascending under the loader's key order (`desc` = a reversed `KeyCompare`) -/
 def ascending (desc : Bool) : List Nat → Bool
